@@ -320,6 +320,7 @@ func runC05(r *core.Run) {
 		})
 
 	interleavedReadersFor(r, []string{"newick"})
+	consumerMutatesRecords(r, []string{"newick"})
 	bigFiles(r, "newick", []int{0})
 
 	r.Bound("marked-offsets", markBounds+" (here: the name of one leaf of a 3-node tree followed by a second tree); bytes ' ( _"+core.Pick(r, "", " and ) , : ; space TAB LF [ 0x00 0xFF"))
